@@ -19,13 +19,18 @@ func main() {
 	replay := fs.String("replay", "", "replay file")
 	repo := fs.String("repo", "/repo", "path of the anko working tree")
 	gen := fs.String("gen", "sem", "generator")
+	srcfile := fs.String("srcfile", "", "JSON list of sources to run (directed expectations)")
 	fs.Parse(os.Args[2:])
 	var err error
 	switch id {
 	case "c12":
 		err = c12Main(*seed, *n, *out, *replay)
 	case "interp":
-		err = interpMain(*seed, *n, *out, *gen)
+		if *srcfile != "" {
+			err = interpSrcFile(*srcfile, *out)
+		} else {
+			err = interpMain(*seed, *n, *out, *gen)
+		}
 	case "c17":
 		err = c17Main(*seed, *n, *out, *repo)
 	default:
